@@ -6,15 +6,18 @@ from ..core import HEADER, CASE_TYPE, CHECK, MODEL_VIEW, SHARD, CASE_TIMEOUT, ob
 
 ID = "C10"
 THEOREMS = ["C10_if_true", "C10_if_false_else", "C10_if_false_nothing", "C10_condition", "C10_for", "C10_for_range",
-            "C10_for_empty", "C10_sequence"]
+            "C10_for_empty", "C10_sequence", "C10_for_unrolled_assembly", "C10_for_unrolled_labels", "C10_kind_invisible"]
 RULE = ("generated programs with .if (zero, non-zero, negative, large, undefined-name conditions, with/without else) and "
         ".for (empty, single, many, negative start, bounds from constants and macro parameters) incl. nesting and use inside "
         "macros; each compared with the model and with its hand-expanded twin (selected branch inline, { v = k body } per "
         "iteration); non-trivial: assembles and emits bytes")
 PROVED_NOTE = ("proved: .if = its first block / else block / nothing according to the condition (undefined name = false, "
                "negative = true); .for = the body once per a..b-1 in order, each in its own scope with the variable bound, "
-               "nothing when b <= a; statement lists compose sequentially. Correspondence-only: that an internal (loop) scope "
-               "and an ordinary block differ only in the label listing (twin compared on blocks).")
+               "nothing when b <= a; statement lists compose sequentially; END TO END: the assembly (code generation of what "
+               "precedes, the loop, what follows; all passes) of a program with .for and of its hand-unrolled twin "
+               "{ v = k body }... fail with the same error kind or give the same writer blocks, and the label listing differs "
+               "only by the labels of the loop's internal scopes (simulation over every resolver operation, node and pass). "
+               "Correspondence-only: that codegen.py computes what the model computes; the .if half is proved at code-generation level.")
 MANIFEST = {
     "text": ("Coq theorems over the Gallina model of generate_if/generate_for (all conditions, bounds, bodies); model tied to "
              "the code by differential runs; oracle: the implementation's output for the program equals its output for the "
